@@ -1,3 +1,342 @@
-import StirVerif.C20.Model
+import StirVerif.C20.ProofsGap
+import StirVerif.C20.ProofsStore
+import StirVerif.C20.ProofsFan
+import StirVerif.C20.ProofsApply
+import StirVerif.C20.ProofsIter
+import StirVerif.C20.ProofsPos
+import StirVerif.C20.ProofsBlock
+import StirVerif.C20.ProofsKL
+/-!
+# C20 — component-based normalisation: data conversions are lossless, ML steps descend.  Property theorems.
+
+All statements are about the executable model `StirVerif.C20` (`Model.lean`, tied to `buildblock/ML_norm.cxx` by the
+correspondence run of `checks/c20.py`), for all scanner sizes, crystals per block, numbers of virtual crystals, fan sizes,
+ring differences and all values in an arbitrary field (ordered field / `ℝ` where stated).  Equality of arrays is
+*observational*: equality of every element read through `get`.
+-/
 namespace StirVerif.C20
+
+/-! ## 1. The gap index maps ("gaps are filled as requested": which crystal is a gap, and nothing else is lost) -/
+
+/-- *"Converting … to the detector-pair representation … and back is lossless"* — index level:
+adding the gaps back after removing them returns the crystal index, for every physical crystal, any crystals-per-block `c`,
+any number `v < c` of virtual crystals per block, any (unbounded) index. -/
+theorem C20_addGap_removeGap {x c v : Int} (hx : 0 ≤ x) (hv : 0 ≤ v) (hvc : v < c) (hphys : isVirtual x c v = false) :
+    addGap (removeGap x c v) c v = x :=
+  addGap_removeGap hx hv hvc hphys
+
+/-- … and every physical index comes from exactly one physical crystal: `removeGap ∘ addGap = id`, `addGap` never produces a
+virtual crystal. -/
+theorem C20_removeGap_addGap {y c v : Int} (hy : 0 ≤ y) (hv : 0 ≤ v) (hvc : v < c) :
+    removeGap (addGap y c v) c v = y ∧ isVirtual (addGap y c v) c v = false ∧ 0 ≤ addGap y c v :=
+  removeGap_addGap hy hv hvc
+
+/-- `removeGap` is injective on physical crystals (no two crystals share a fan-data index). -/
+theorem C20_removeGap_injective_on_physical {x x' c v : Int} (hx : 0 ≤ x) (hx' : 0 ≤ x') (hv : 0 ≤ v) (hvc : v < c)
+    (hp : isVirtual x c v = false) (hp' : isVirtual x' c v = false) (h : removeGap x c v = removeGap x' c v) : x = x' :=
+  removeGap_injective_on_physical hx hx' hv hvc hp hp' h
+
+/-- The physical index of a physical crystal of a ring of `nb` blocks lies in `0 .. nb·(c-v) - 1`
+(= the `num_physical_detectors_per_ring` of the fan data) and the order of the crystals is kept. -/
+theorem C20_removeGap_range {x x' c v nb : Int} (hx : 0 ≤ x) (hv : 0 ≤ v) (hvc : v < c) (hxn : x < nb * c)
+    (hp : isVirtual x c v = false) (hp' : isVirtual x' c v = false) (hlt : x < x') :
+    0 ≤ removeGap x c v ∧ removeGap x c v < nb * (c - v) ∧ removeGap x c v < removeGap x' c v :=
+  ⟨(removeGap_bounds hx hv hvc).1, removeGap_lt hx hv hvc hxn hp, removeGap_strictMono_on_physical hx hv hvc hp hp' hlt⟩
+
+/-- Detector pairs: two physical detector pairs with the same four fan-data indices are the same pair. -/
+theorem C20_newCoords_injective {s : Scn} (ws : s.WF) {p p' : DetPair} (hp : p.nonneg) (hp' : p'.nonneg) {c : Key}
+    (h : newCoords s p = some c) (h' : newCoords s p' = some c) : p = p' :=
+  newCoords_injective ws hp hp' h h'
+
+example : isVirtual 7 5 1 = false ∧ addGap (removeGap 7 5 1) 5 1 = 7 ∧ removeGap 7 5 1 = 6 ∧ isVirtual 9 5 1 = true := by decide
+example : removeGap 13 6 2 = 9 ∧ addGap 9 6 2 = 13 ∧ removeGap (addGap 11 6 2) 6 2 = 11 := by decide
+example : (⟨20, 5, 5, 3, 1, 1, 4, 2, -5, 5, 4, true, 1, 0, false⟩ : Scn).WF := by decide
+
+/-! ## 2. The fan window and the symmetric storage of `FanProjData` -/
+
+/-- The fan window is symmetric: `b` is in the fan of `a` iff `a` is in the fan of `b`
+(so a LOR can be addressed from either of its detectors). -/
+theorem C20_fan_window_symmetric {d : Dims} (wf : d.WF) {a b : Int} (ha : 0 ≤ a ∧ a < d.N) (hb : 0 ≤ b ∧ b < d.N) :
+    d.inFan a b ↔ d.inFan b a :=
+  inFan_symm wf ha hb
+
+/-- *Symmetric storage identity*: for detectors in different rings `fan(ra,a,rb,b)` and `fan(rb,b,ra,a)` are the same array
+element (only half of the ring pairs is stored). -/
+theorem C20_symmetric_storage (d : Dims) {ra a rb b : Int} (hne : ra ≠ rb) (ha : 0 ≤ a ∧ a < d.N) (hb : 0 ≤ b ∧ b < d.N) :
+    d.storeKey ra a rb b = d.storeKey rb b ra a :=
+  storeKey_symm d hne ha hb
+
+/-- … but within one ring `fan(ra,a,ra,b)` and `fan(ra,b,ra,a)` are two different elements: an in-ring LOR is stored twice. -/
+theorem C20_in_ring_pairs_stored_twice (d : Dims) {ra a b : Int} (ha : 0 ≤ a ∧ a < d.N) (hb : 0 ≤ b ∧ b < d.N) (hab : a ≠ b) :
+    d.storeKey ra a ra b ≠ d.storeKey ra b ra a :=
+  storeKey_same_ring_ne d ha hb hab
+
+/-- Inside the fan / max-ring-difference window `operator()` stays inside the index range allocated by the constructor
+(the range checks of the C++ are `assert`s, compiled out). -/
+theorem C20_storeKey_allocated {d : Dims} (wf : d.WF) {ra a rb b : Int} (h : d.inWindow ra a rb b) :
+    d.allocated (d.storeKey ra a rb b) = true :=
+  storeKey_allocated wf h
+
+/-- Two detector pairs of the window share an array element iff they are the same pair, or the same pair named the other
+way round with the detectors in different rings. -/
+theorem C20_storeKey_eq_iff {d : Dims} (wf : d.WF) {ra a rb b ra' a' rb' b' : Int} (h : d.inWindow ra a rb b)
+    (h' : d.inWindow ra' a' rb' b') :
+    d.storeKey ra a rb b = d.storeKey ra' a' rb' b' ↔
+      (ra' = ra ∧ a' = a ∧ rb' = rb ∧ b' = b) ∨ (ra ≠ rb ∧ ra' = rb ∧ a' = b ∧ rb' = ra ∧ b' = a) :=
+  storeKey_eq_iff wf h h'
+
+/-- *Which `(ra,a,rb,b)` are stored*: the loop nest `for ra, a, rb ≥ ra, b` used by every function visits every allocated
+array element exactly once (no repetition, no two index tuples on one element, every allocated element reached). -/
+theorem C20_stored_entries_visited_once {d : Dims} (wf : d.WF) :
+    d.canon.Nodup ∧ (∀ c ∈ d.canon, ∀ c' ∈ d.canon, d.key c = d.key c' → c = c') ∧
+      (∀ k, d.allocated k = true → ∃ c ∈ d.canon, d.key c = k) ∧ (∀ c ∈ d.canon, d.allocated (d.key c) = true) :=
+  ⟨canon_nodup d, fun _ hc _ hc' h => key_injOn_canon wf hc hc' h, fun _ hk => exists_canon_of_allocated wf hk, fun c hc => by
+    rw [key_eq_storeKey_tmod wf hc]
+    exact storeKey_allocated wf (inWindow_of_mem_canon wf hc).1⟩
+
+example : (Dims.ofCtor 4 16 3 9).WF := by decide
+example : (Dims.ofCtor 4 16 3 9).inWindow 3 15 1 9 ∧ ¬ (Dims.ofCtor 4 16 3 9).inWindow 0 0 0 3 := by decide
+example : (Dims.ofCtor 4 16 3 9).storeKey 3 15 1 9 = (1, 9, 3, 15) ∧ (Dims.ofCtor 4 16 3 9).storeKey 1 9 3 15 = (1, 9, 3, 15) := by
+  decide
+
+/-! ## 3. Projection data → fan data → projection data -/
+
+section roundtrip
+variable {K : Type} [OfNat K 0]
+
+/-- *"each entry is the value of the bin that the geometry assigns to that detector pair"*: after
+`make_fan_data_remove_gaps` the fan entry of the physical detector pair of a bin — addressed either way round — holds the
+value of that bin.  `bins` is the loop of the C++ (any order); the detector-pair ↔ bin map is the parameter `Prod.fst`
+(property C01): no two bins with different values may be the same unordered detector pair. -/
+theorem C20_fan_entry_is_bin_value {d : Dims} (wf : d.WF) {s : Scn} (ws : s.WF) (bins : List (DetPair × K))
+    (hnn : ∀ pv ∈ bins, pv.1.nonneg) (hwin : ∀ pv ∈ bins, winOK s d pv.1 = true)
+    (hdist : ∀ pv ∈ bins, ∀ pv' ∈ bins, (pv'.1 = pv.1 ∨ pv'.1 = pv.1.swap) → pv'.2 = pv.2)
+    {pv : DetPair × K} (hpv : pv ∈ bins) {nra na nrb nb : Int} (hc : newCoords s pv.1 = some (nra, na, nrb, nb)) :
+    (makeFan s d bins).at d nra na nrb nb = pv.2 ∧ (makeFan s d bins).at d nrb nb nra na = pv.2 :=
+  makeFan_at wf s bins (fun pv hpv c hc => winOK_spec (hwin pv hpv) c hc) (hinj_of_detPairs ws bins hnn hdist) hpv hc
+
+/-- *"Converting projection data to the detector-pair ('fan') representation … and back is lossless … and gaps are filled as
+requested"*: `set_fan_data_add_gaps ∘ make_fan_data_remove_gaps` returns, for every bin of the window, its own value, and the
+requested gap value for the bins with a virtual crystal. -/
+theorem C20_fan_roundtrip {d : Dims} (wf : d.WF) {s : Scn} (ws : s.WF) (bins : List (DetPair × K)) (gap : K)
+    (hnn : ∀ pv ∈ bins, pv.1.nonneg) (hwin : ∀ pv ∈ bins, winOK s d pv.1 = true)
+    (hdist : ∀ pv ∈ bins, ∀ pv' ∈ bins, (pv'.1 = pv.1 ∨ pv'.1 = pv.1.swap) → pv'.2 = pv.2) :
+    setFan s d (makeFan s d bins) gap (bins.map Prod.fst) =
+      bins.map fun pv => if (newCoords s pv.1).isNone then gap else pv.2 :=
+  fan_roundtrip wf s bins gap (fun pv hpv c hc => winOK_spec (hwin pv hpv) c hc) (hinj_of_detPairs ws bins hnn hdist)
+
+end roundtrip
+
+example : fanDimsOf exampleScn = .ok ⟨1, 4, 0, 1⟩ := by decide
+example : (⟨1, 4, 0, 1⟩ : Dims).WF ∧ exampleScn.WF := by decide
+example : (∀ pv ∈ exampleBins, pv.1.nonneg) ∧ (∀ pv ∈ exampleBins, winOK exampleScn ⟨1, 4, 0, 1⟩ pv.1 = true) ∧
+    (∀ pv ∈ exampleBins, ∀ pv' ∈ exampleBins, (pv'.1 = pv.1 ∨ pv'.1 = pv.1.swap) → pv'.2 = pv.2) := by decide
+example : exampleBins.map (fun pv => if (newCoords exampleScn pv.1).isNone then (-3 : Int) else pv.2) = [-3, 2, -3, 4, 5, 6, -3, -3, -3] := by
+  decide
+
+/-! ## 4. Applying factors -/
+
+section apply
+variable {K : Type} [Field K] [DecidableEq K]
+
+/-- *"'un-applying' restores the data"* — efficiencies: `apply_efficiencies(·, eff, false)` after `apply_efficiencies(·, eff, true)`
+returns every array element, for non-zero efficiencies, any field.  (Holds for any loop nest and index map: see
+`factorFold_unapply_apply`.) -/
+theorem C20_apply_unapply_id_efficiencies {d : Dims} (wf : d.WF) (F : Fan K) (eff : Tab K) (hne : ∀ x ∈ d.dets, eff.get x ≠ 0)
+    (k : Key) : (applyEff d (applyEff d F eff true) eff false).get k = F.get k ∧
+      (applyEff d (applyEff d F eff false) eff true).get k = F.get k :=
+  ⟨applyEff_unapply wf F eff hne k, applyEff_apply_of_unapply wf F eff hne k⟩
+
+/-- … block factors (`apply_block_norm`), for non-zero factors of the block pairs that occur. -/
+theorem C20_apply_unapply_id_block {d bd : Dims} (F blk : Fan K) (hne : ∀ c ∈ d.canon, blockFactor d bd blk c ≠ 0) (k : Key) :
+    (applyBlock d bd (applyBlock d bd F blk true) blk false).get k = F.get k :=
+  applyBlock_unapply F blk hne k
+
+/-- … geometric factors (`apply_geo_norm`): the table `work` of factors per entry does not depend on `apply`. -/
+theorem C20_apply_unapply_id_geo {d : Dims} {g : GeoDims} (F geo : Fan K)
+    (hne : ∀ c ∈ d.canon, geoFactor d (geoWork d g geo) c ≠ 0) (k : Key) :
+    (applyGeo d g (applyGeo d g F geo true) geo false).get k = F.get k :=
+  applyGeo_unapply F geo hne k
+
+/-- *"Applying efficiencies … multiplies each detector-pair entry by the product of the factors of its two detectors"*:
+for every detector pair inside the window, whichever detector is named first; and un-applying divides by it. -/
+theorem C20_apply_is_product_of_two_detectors {d : Dims} (wf : d.WF) (F : Fan K) (eff : Tab K) {ra a rb b : Int}
+    (h : d.inWindow ra a rb b) :
+    (applyEff d F eff true).at d ra a rb b = F.at d ra a rb b * (eff.get (ra, a) * eff.get (rb, b)) ∧
+      (applyEff d F eff false).at d ra a rb b = F.at d ra a rb b / (eff.get (ra, a) * eff.get (rb, b)) :=
+  ⟨applyEff_at wf F eff h, unapplyEff_at wf F eff h⟩
+
+/-- *"… (or its geometric class)"*: the entry addressed by the loop indices `c` is multiplied exactly once, by the factor of the
+pair of blocks of its detectors (`apply_block_norm`) / by the entry of `work` (`apply_geo_norm`). -/
+theorem C20_apply_block_geo_factor {d bd : Dims} {g : GeoDims} (wf : d.WF) (F X : Fan K) {c : Key} (hc : c ∈ d.canon) :
+    (applyBlock d bd F X true).get (d.key c) = F.get (d.key c) * blockFactor d bd X c ∧
+      (applyGeo d g F X true).get (d.key c) = F.get (d.key c) * geoFactor d (geoWork d g X) c :=
+  ⟨applyBlock_get_key wf F X hc, applyGeo_get_key wf F X hc⟩
+
+/-! ## 5. Fixed points of the maximum-likelihood iterations -/
+
+/-- Fan sums of data generated exactly from the model: `Σ_b ε_a ε_b m_ab = ε_a · Σ_b ε_b m_ab`
+(`make_fan_sum_data ∘ apply_efficiencies`, the same `Σ` as the denominator of `iterate_efficiencies`). -/
+theorem C20_fan_sums_of_model_data {d : Dims} (wf : d.WF) (model : Fan K) (eff : Tab K) {x : Int × Int} (hx : x ∈ d.dets) :
+    (makeFanSums d (applyEff d model eff true)).get x = eff.get x * effDenominator d model eff x.1 x.2 := by
+  rw [makeFanSums_get d _ hx]
+  exact fanSum_applyEff wf model eff hx
+
+/-- *"For data generated exactly from a model, the model parameters are a fixed point of the maximum-likelihood iterations"* —
+efficiencies: the in-place sweep of `iterate_efficiencies` on the fan sums of `ε_a ε_b m_ab` returns `ε` (non-zero
+efficiencies and denominators, any field). -/
+theorem C20_eff_fixed_point {d : Dims} (wf : d.WF) (model : Fan K) (eff : Tab K) (hne : ∀ x ∈ d.dets, eff.get x ≠ 0)
+    (hden : ∀ x ∈ d.dets, effDenominator d model eff x.1 x.2 ≠ 0) (k : Int × Int) :
+    (iterateEff d eff (makeFanSums d (applyEff d model eff true)) model).get k = eff.get k :=
+  iterateEff_fixed wf model eff hne hden k
+
+/-- *"0 where the fan sum is 0"*: a detector with fan sum `0` gets efficiency `0` in its step of the sweep. -/
+theorem C20_dead_detector_gets_zero (d : Dims) (sums : Tab K) (model : Fan K) (T : Tab K) (x : Int × Int) (h : sums.get x = 0) :
+    (effStep d sums model T x).get x = 0 :=
+  effStep_dead d sums model T x h
+
+end apply
+
+section ordered
+variable {K : Type} [Field K] [LinearOrder K] [IsStrictOrderedRing K]
+
+/-- The same with the natural hypotheses: positive efficiencies and a model that is positive on every detector pair of the
+window (then all denominators are positive). -/
+theorem C20_eff_fixed_point_positive {d : Dims} (wf : d.WF) (model : Fan K) (eff : Tab K) (heff : ∀ x ∈ d.dets, 0 < eff.get x)
+    (hmodel : ∀ c ∈ d.canon, 0 < model.get (d.key c)) (k : Int × Int) :
+    (iterateEff d eff (makeFanSums d (applyEff d model eff true)) model).get k = eff.get k := by
+  classical
+  exact iterateEff_fixed wf model eff (fun x hx => (heff x hx).ne') (fun x hx => (effDenominator_pos wf model eff heff hmodel hx).ne') k
+
+/-- Geometric and block factors — the algebraic core shared by `iterate_geo_norm` and `iterate_block_norm`: if the measured
+class sum is `g` times the class sum `S > 0` of the model, the update
+`(measured >= threshold || measured < 10000*norm) ? measured/norm : 0` returns `g`, for any threshold, provided `g < 10000`
+(the constant hard-wired in the code) … -/
+theorem C20_class_ratio_fixed_point (thr S g : K) (hS : 0 < S) (hg : g < 10000) : ratioOrZero thr (g * S) S = g :=
+  ratioOrZero_fixed thr S g hS hg
+
+/-- … and the bound is sharp: a factor `≥ 10000` of a class below the threshold is replaced by `0`. -/
+theorem C20_class_ratio_threshold (thr S g : K) (hS : 0 < S) (hg : 10000 ≤ g) (hthr : g * S < thr) :
+    ratioOrZero thr (g * S) S = 0 :=
+  ratioOrZero_zero thr S g hS hg hthr
+
+end ordered
+
+/-- hypotheses of `C20_eff_fixed_point_positive` are satisfiable (2 rings of 8 detectors, ring difference 1, half fan 2) -/
+example : ∃ (eff : Tab ℚ) (model : Fan ℚ), (⟨2, 8, 1, 2⟩ : Dims).WF ∧ (∀ x ∈ (⟨2, 8, 1, 2⟩ : Dims).dets, 0 < eff.get x) ∧
+    (∀ c ∈ (⟨2, 8, 1, 2⟩ : Dims).canon, 0 < model.get ((⟨2, 8, 1, 2⟩ : Dims).key c)) :=
+  ⟨Tab.const _ 1, Fan.const _ 3, by decide, fun x hx => by rw [Tab.const_get _ _ hx]; norm_num,
+    fun c hc => by rw [Fan.const_get _ _ hc]; norm_num⟩
+
+example : ratioOrZero (5 : ℚ) ((3 / 2) * 4) 4 = 3 / 2 := C20_class_ratio_fixed_point 5 4 (3 / 2) (by norm_num) (by norm_num)
+
+section block
+variable {K : Type} [Field K] [LinearOrder K] [IsStrictOrderedRing K]
+
+/-- *"… the model parameters are a fixed point of the maximum-likelihood iterations"* — block factors: for data generated exactly
+as `block factor × model` (`apply_block_norm`), `iterate_block_norm` on the measured block data (`make_block_data`) returns the
+block factor of every pair of blocks that has a LOR in the window.  Hypotheses: positive model, factors below the hard-wired
+`10000`, and `halloc`: the block pairs of the window lie inside the index range of the block data
+(`BlockData3D(num_axial_blocks, num_transaxial_blocks, num_axial_blocks-1, num_transaxial_blocks-1)`). -/
+theorem C20_block_fixed_point {d bd : Dims} (wf : d.WF) (wfb : bd.WF) (model blk : Fan K)
+    (hmodel : ∀ c ∈ d.canon, 0 < model.get (d.key c))
+    (halloc : ∀ c ∈ d.canon, bd.allocated (blockKey d bd c) = true)
+    (hblk : ∀ c ∈ d.canon, blk.get (blockKey d bd c) < 10000) {c : Key} (hc : c ∈ d.canon) :
+    (iterateBlock d bd (makeBlock d bd (applyBlock d bd model blk true)) model).get (blockKey d bd c)
+      = blk.get (blockKey d bd c) :=
+  iterateBlock_fixed wf wfb model blk hmodel halloc hblk hc
+
+end block
+
+/-- `halloc` holds e.g. for 2 rings of 8 detectors (half fan 1) in 2 × 4 blocks of 1 × 2 crystals … -/
+example : (⟨2, 8, 1, 1⟩ : Dims).WF ∧ (Dims.ofCtor 2 4 1 3).WF ∧
+    ∀ c ∈ (⟨2, 8, 1, 1⟩ : Dims).canon, (Dims.ofCtor 2 4 1 3).allocated (blockKey ⟨2, 8, 1, 1⟩ (Dims.ofCtor 2 4 1 3) c) = true := by
+  decide
+
+/-- … and fails when the fan contains two crystals of one block (8 detectors in 2 blocks of 4, half fan 2: detectors 0 and 2):
+there `apply_block_norm` / `make_block_data` index the block data out of range (confirmed on the implementation with
+AddressSanitizer: heap-buffer-overflow in `FanProjData::operator()`, ML_norm.cxx:779; the harness does not generate such
+configurations). -/
+theorem C20_block_data_index_range_fails :
+    ¬ ∀ c ∈ (⟨1, 8, 0, 2⟩ : Dims).canon, (Dims.ofCtor 1 2 0 1).allocated (blockKey ⟨1, 8, 0, 2⟩ (Dims.ofCtor 1 2 0 1) c) = true := by
+  decide
+
+/-- **Not proved, and false of the code as it stands for an odd number ≥ 5 of rings** (see `C20_geo_mirror_condition_fails`
+and the `KNOWN-CANDIDATE geo-fixed-point…` line of the oracle): geometric factors that are an ML estimate are reproduced by
+`iterate_geo_norm` from data generated with them. -/
+def C20_geo_fixed_point_statement : Prop :=
+  ∀ (d : Dims) (g : GeoDims) (model data : Fan ℚ), d.WF → (∀ c ∈ d.canon, 0 < model.get (d.key c) ∧ 0 < data.get (d.key c)) →
+    let ghat := iterateGeo d g (makeGeo d g data) model
+    ∀ k, (iterateGeo d g (makeGeo d g (applyGeo d g model ghat true)) model).get k = ghat.get k
+
+/-! ### the condition of `make_geo_data` that breaks the geometric fixed point -/
+
+/-- `make_geo_data` adds the two axially mirrored LORs only `if (ra != mra && rb != mrb)`.  The LOR is its own axial mirror
+iff `ra == mra && rb == mrb`; the condition as written also drops the mirrored terms when exactly one of the two rings is the
+central ring — e.g. 5 rings, LOR between rings 1 and 2 (mirror: rings 3 and 2). -/
+theorem C20_geo_mirror_condition_fails :
+    ¬ ∀ (d : Dims) (ra rb : Int), 0 ≤ ra → ra ≤ rb → rb < d.R →
+        (d.fourTerms ra rb = false → d.R - 1 - ra = ra ∧ d.R - 1 - rb = rb) := by
+  intro h
+  have := h ⟨5, 8, 2, 2⟩ 1 2 (by decide) (by decide) (by decide) (by decide)
+  exact absurd this (by decide)
+
+/-- With an even number of rings there is no central ring and the mirrored terms are always added. -/
+theorem C20_geo_mirror_condition_partial (d : Dims) (ra rb : Int) (heven : d.R = 2 * Int.tdiv d.R 2) : d.fourTerms ra rb = true := by
+  unfold Dims.fourTerms
+  have h1 : ra ≠ d.R - 1 - ra := by omega
+  have h2 : rb ≠ d.R - 1 - rb := by omega
+  simp [h1, h2]
+
+/-! ## 6. The efficiency iteration descends -/
+
+section kl
+variable {ι : Type} [Fintype ι] [DecidableEq ι]
+
+/-- One assignment `ε_k ← fan_sum_k / Σ_b ε_b m_kb` (`0` where the fan sum is `0`) of `iterate_efficiencies`, with the current
+values of all other detectors, does not increase the Kullback-Leibler distance `Σ KL(y_ab, ε_a ε_b m_ab, 0)` between symmetric
+data and the product model: it is the exact minimiser in that coordinate (`log x ≥ 1 - 1/x`).  Abstract formulation: any
+finite set of detectors, `y`/`m` zero outside the fan window. -/
+theorem C20_eff_coordinate_update_descends {y m : ι → ι → ℝ} (P : PairData y m) {ε : ι → ℝ} (hε : ∀ a, 0 < ε a) (k : ι) :
+    klObjective y m (effUpdate y m ε k) ≤ klObjective y m ε :=
+  effUpdate_descends P hε k
+
+/-- *"every efficiency iteration leaves the Kullback-Leibler distance between symmetric data and the product model no larger than
+before"*: the in-place sweep over any sequence `l` of detectors (later detectors see the earlier updates), all of them with a
+positive fan sum; the efficiencies stay positive. -/
+theorem C20_eff_iteration_descends {y m : ι → ι → ℝ} (P : PairData y m) (l : List ι) (hl : ∀ k ∈ l, 0 < fanSumR y k) {ε : ι → ℝ}
+    (hε : ∀ a, 0 < ε a) : klObjective y m (effSweep y m ε l) ≤ klObjective y m ε ∧ ∀ a, 0 < effSweep y m ε l a :=
+  effSweep_descends P l hl hε
+
+end kl
+
+/-- hypotheses of the descent theorems are satisfiable: two detectors, data 3, model 2 -/
+example : PairData (ι := Fin 2) (fun a b => if a = b then 0 else 3) (fun a b => if a = b then 0 else 2) where
+  y_nonneg := by intro a b; split <;> norm_num
+  m_nonneg := by intro a b; split <;> norm_num
+  y_symm := by intro a b; simp [eq_comm]
+  m_symm := by intro a b; simp [eq_comm]
+  y_diag := by simp
+  m_diag := by simp
+  supp := by intro a b; split <;> norm_num
+
+/-- **Not proved at the level of the executable model** (the abstract formulation above is; the oracle checks it on the
+implementation): the Kullback-Leibler distance summed once per detector pair does not increase under `iterate_efficiencies`. -/
+def C20_eff_iteration_descends_on_model : Prop :=
+  ∀ (d : Dims) (data model : Fan ℝ) (eff : Tab ℝ), d.WF →
+    (∀ c ∈ d.canon, 0 ≤ data.get (d.key c) ∧ 0 < model.get (d.key c)) →
+    (∀ ra a rb b, d.inWindow ra a rb b → data.at d ra a rb b = data.at d rb b ra a ∧ model.at d ra a rb b = model.at d rb b ra a) →
+    (∀ x ∈ d.dets, 0 < eff.get x ∧ 0 < (makeFanSums d data).get x) →
+    klPairs Real.log d data (applyEff d model (iterateEff d eff (makeFanSums d data) model) true) 0 ≤
+      klPairs Real.log d data (applyEff d model eff true) 0
+
+/-- The library's own `KL(const FanProjData&, const FanProjData&, …)` (`klFan`) is *not* that distance: its loop nest visits an
+in-ring LOR twice (as `(ra,a,ra,b)` and `(ra,b,ra,a)`, two array elements) and a LOR between rings once — e.g. 1 ring of 4
+detectors, half fan 1: `(0,0,0,2)` and `(0,2,0,4)` are the same LOR.  (With several rings it therefore weights in-ring LORs
+double and can go up under an efficiency iteration: `KNOWN-CANDIDATE kl-descent…` of the oracle.) -/
+theorem C20_klFan_visits_each_pair_once_fails :
+    ¬ ∀ c ∈ (⟨1, 4, 0, 1⟩ : Dims).canon, ∀ c' ∈ (⟨1, 4, 0, 1⟩ : Dims).canon,
+        (c'.1 = c.2.2.1 ∧ c'.2.2.1 = c.1 ∧ c'.2.1 = Int.tmod c.2.2.2 4 ∧ Int.tmod c'.2.2.2 4 = c.2.1) → c' = c := by
+  decide
+
 end StirVerif.C20
